@@ -76,7 +76,7 @@ class C11(Check):
             return {"command": "version"}
         return self.reqs[name]
 
-    def history(self, name, idx, fault, follow, k):
+    def history(self, name, idx, fault, follow, k, second=None):
         """returns (world, [(reply, exc)], [log slices])"""
         v1 = name.startswith("v1-")
         dev = dialogues.configure(PowHsm(seed=b"c11"), name)
@@ -101,6 +101,21 @@ class C11(Check):
         slices.append(w.log[base:])
         armed["on"] = False
         w.connect_failures = k
+        if second is not None:
+            # fail the j-th exchange of the next bring-up (j >= 1: after the onboarded query)
+            j, kind2 = second
+            st = {"base": None, "done": False}
+
+            def inject2(world, i, apdu):
+                if st["done"]:
+                    return None
+                if st["base"] is None:
+                    st["base"] = i
+                if i - st["base"] == j:
+                    st["done"] = True
+                    return (kind2,)
+                return None
+            w.inject = inject2
         for f in follow:
             b = len(w.log)
             o = harness.handle_line(proto, json.dumps(self.req_of(f)).encode())
@@ -114,6 +129,10 @@ class C11(Check):
         v1 = name.startswith("v1-")
         if case.get("fault") == "none":
             return [v for v in self.pre_violations if v.d["case"]["name"] == name]
+        if case.get("second"):
+            self.second(name, idx, case["fault"], case["follow"], case["second"][0], case["second"][1],
+                        stats, vs)
+            return vs
         if "fault" in case:
             self.one(name, idx, case["fault"], case["follow"], case["k"], stats, vs)
             return vs
@@ -124,7 +143,54 @@ class C11(Check):
                     if fault == "timeout" and k > 0:
                         continue
                     self.one(name, idx, fault, f, k, stats, vs)
+        # the repair itself is hit by a fault after the onboarded query (mode, version, parameters)
+        if idx in (0, self.nominal[name]["n"] - 1):
+            for fault in ("write", "read"):
+                for j in (1, 2, 3):
+                    for kind2 in ("timeout", "write", "read"):
+                        self.second(name, idx, fault, follows[0], j, kind2, stats, vs)
         return vs
+
+    def second(self, name, idx, fault, f, j, kind2, stats, vs):
+        """link failure, then a fault at exchange j of the repair's bring-up: that request gets
+        the device-error code and the following one repeats the whole repair"""
+        v1 = name.startswith("v1-")
+        derr = -2 if v1 else -905
+        kind = self.nominal[name]["kinds"][idx]
+        if kind == "exit" or f.startswith("version"):
+            return
+        drain = "v1-getPubKey" if v1 else "getPubKey"
+        stats.evaluations += 1
+        w, replies, slices = self.history(name, idx, fault, [f, drain, drain], 0, second=(j, kind2))
+        codes = [r[0].get("errorcode") if isinstance(r[0], dict) else None for r in replies]
+        stats.observe((name, kind, fault, "second", j, kind2, tuple(codes), tuple(r[1] for r in replies)))
+        case = {"name": name, "idx": idx, "fault": fault, "follow": f, "k": 0, "second": [j, kind2]}
+
+        def viol(clause, observed, expected):
+            vs.append(Violation("C11", "C11:%s:%s:%s+%s@bringup%d" % (clause, name, fault, kind2, j),
+                                case, None, observed, expected, clause))
+        if w.device.mode != MODE_SIGNER:
+            stats.dont_care += 1
+            return
+        if replies[0][1] is not None or codes[0] != derr:
+            return      # judged by one()
+        if replies[1][1] is not None:
+            viol("failed-repair-stops-manager", {"exc": replies[1][1]}, {"errorcode": derr})
+            return
+        if codes[1] != derr:
+            viol("failed-repair-code", {"reply": replies[1][0]}, {"errorcode": derr})
+            return
+        # the following request must repair again: (close) -> open -> full bring-up -> command
+        ent = [(e[0], e[2][1] if e[0] == "x" else None) for e in slices[2]]
+        opens = [i for i, e in enumerate(ent) if e[0] == "open"]
+        if not opens:
+            viol("repair-not-retried", {"log": ent[:8], "reply": replies[2][0]},
+                 "close/open and the full bring-up before the command")
+            return
+        after = [e[1] for e in ent[opens[0] + 1:opens[0] + 5]]
+        if after != BRINGUP or replies[2][1] is not None or codes[2] not in (0, 1):
+            viol("repair-retry-incomplete", {"apdus_after_open": after, "reply": replies[2][0],
+                                             "exc": replies[2][1]}, {"apdus_after_open": BRINGUP})
 
     def one(self, name, idx, fault, f, k, stats, vs):
         v1 = name.startswith("v1-")
